@@ -23,7 +23,7 @@ def shards(tier):
 def floors(tier):
     return {"roundtrips_ok": 3000, "chiral_centres": 5000, "chiral.opens_ring": 500, "chiral.closes_ring": 500,
             "chiral.opens_and_closes": 100, "chiral.first_atom": 50, "chiral.with_H": 300, "chiral.multi_ring>=2": 200,
-            "marks.chain": 500, "marks.ring_open_end": 100, "marks.ring_close_end": 100, "dataset_stereo_ok": 100}
+            "chiral.ring_digit_after_branch": 200, "marks.chain": 500, "marks.ring_open_end": 100, "marks.ring_close_end": 100, "dataset_stereo_ok": 100}
 
 
 def _classify(ctx, mi):
@@ -51,6 +51,13 @@ def _classify(ctx, mi):
             ctx.count("chiral.opens_and_closes")
         if opens + closes >= 2:
             ctx.count("chiral.multi_ring>=2")
+        seen_chain = False
+        for n in a.nbrs:
+            if isinstance(n, int) and n > a.idx and mi.bond_kind.get((a.idx, n)) == "chain":
+                seen_chain = True
+            elif isinstance(n, int) and seen_chain and mi.bond_kind.get((min(a.idx, n), max(a.idx, n))) == "ring":
+                ctx.count("chiral.ring_digit_after_branch")
+                break
         if a.idx == 0 or (a.nbrs and a.nbrs[0] == "H") or not any(isinstance(n, int) and n < a.idx and mi.bond_kind.get((n, a.idx)) == "chain" for n in a.nbrs):
             ctx.count("chiral.first_atom")
         if "H" in a.nbrs:
@@ -83,7 +90,8 @@ def run(ctx):
                             ncomp=rng.choice([1, 1, 1, 2]), table=table)
         for k in range(4):
             try:
-                s, order, tags, marks = spell(m, rng, mix_labels=rng.random() < 0.2)
+                s, order, tags, marks = spell(m, rng, mix_labels=rng.random() < 0.2,
+                                               digits_after_branch=rng.choice([0, 0, 0.5, 1.0]))
             except ValueError:
                 break
             st, mi, mo, x = roundtrip(ctx, sf, s, table, True, "G5-stereo")
